@@ -19,7 +19,10 @@ DEFAULT_TOL = ("exact",)
 # the model of these ops IS "the crystal's published Sellmeier and thermo-optic equation": a disagreement is a failing input
 REFERENCE_OPS = {"indices": ("C01.published", lambda body: "published/" + body.split()[1]),
                  "indices_expr": ("C01.published_expr", lambda body: "published_expr/" + body.split()[1])}
-RULE = ("family crystal: per crystal window edges ±2 ulp and 1.2 µm ±3 ulp × T∈{−50,20,24.5,200} °C; n log-spaced jittered "
+RULE = ("family crystal: per crystal window edges ±2 ulp and 1.2 µm ±3 ulp × T∈{−50,20,24.5,200} °C; boundary wavelengths (edges, 1 ulp "
+        "inside, 1.2 µm ± ulps, whole µm) × 78 special temperatures (fine grid around 20 and 24.5 °C incl. ±1 ulp, range ends); "
+        "every API route to the crystal (from_string, FromStr, serde, CrystalConfig JSON → CrystalSetup, hand-built setup; five "
+        "routes per expression crystal) bit-identical to the direct call; n log-spaced jittered "
         "wavelengths and n/4 round-nm wavelengths × fixed/random T; 13 user expressions (CrystalType::Expr transcribed from the "
         "same formulas, KTP one per n_y branch) evaluated on ONE shared 2n-point (λ,T) grid, interleaved crystal by crystal per point "
         "(second half in reverse crystal order), each against the built-in on the real code (16 ulp) and against the model; a sample "
